@@ -33,10 +33,21 @@ func init() {
 			"handlers registered by the harness return immediately",
 		},
 		Phases: func(tier string) []fw.Phase {
-			return []fw.Phase{{Name: "programs", Race: true, Shards: 12, Timeout: tierDur(tier, 8, 45), HangIsViolation: true}}
+			return []fw.Phase{
+				{Name: "programs", Race: true, Shards: 12, Timeout: tierDur(tier, 8, 45), HangIsViolation: true},
+				// the same programs on the SECS-I transport against a raw TCP peer (c10_secs1.go)
+				{Name: "programs-secs1", Race: true, Shards: 8, Timeout: tierDur(tier, 8, 45), HangIsViolation: true},
+			}
 		},
-		Worker:         c10Worker,
-		RequiredEvents: []string{"programs", "ops", "close_calls", "close_overlapping_ops", "leak_checks_clean", "reopen_roundtrips", "double_open_refused", "connect_during_close"},
+		Worker: func(env *fw.Env) {
+			if env.Phase == "programs-secs1" {
+				c10S1Worker(env)
+			} else {
+				c10Worker(env)
+			}
+		},
+		RequiredEvents: []string{"programs", "ops", "close_calls", "close_overlapping_ops", "leak_checks_clean", "reopen_roundtrips", "double_open_refused", "connect_during_close",
+			"s1_programs", "s1_ops", "s1_close_calls", "s1_leak_checks_clean", "s1_reopen_enq_seen"},
 	})
 }
 
